@@ -1771,7 +1771,7 @@ class RepeatingEngine(Engine):
                         isNewOutput = self.job.producersHaveOutputSinceDate(self.lastLaunched)
                     else:
                         time_waiting = (datetime.datetime.now() - self.lastLaunched).total_seconds()
-                        if time_waiting > 20.0:
+                        if time_waiting > 20.0 or self._stateDict['numberTaskLaunches'] == 0:
                             # VV: FIXME We should consult the graph to figure out whether the producers have
                             #     finished rstage-outing their output files.
                             self.log.log(19, "I have waited for too long for my Finished producers to produce output")
